@@ -7,8 +7,9 @@ from engine import core
 DEFAULT_LIMITS = {"execdepth": 100, "opstack": 500, "dictstack": 20, "maxarray": 65536, "maxstring": 65536, "maxdict": 65536}
 
 
-def ps_consts(ctx):
+def ps_consts(ctx, floors=None):
     """The resource limits of the interpreter under test, as CONSTANTS of the PS specifications.
+    `floors`: values a property itself demands at least (C07: blocks of 100 range entries, three operands each).
 
     The properties demand that limits exist (C11), not their values: they are measured (vh probe-limits).
     A limit that cannot be found is C11's finding; every other check then uses the default value."""
@@ -18,6 +19,8 @@ def ps_consts(ctx):
         ctx._limits = lim
         ctx.extra["measured_limits"] = dict(lim)
     v = {k: (lim.get(k) or DEFAULT_LIMITS[k]) for k in DEFAULT_LIMITS}
+    for k, f in (floors or {}).items():
+        v[k] = max(v[k], f)
     # the containers of the operand pools (65536 elements) must stay legal for the pools to mean what they say
     return ("  MaxExecDepth = %(execdepth)d\n  MaxOpStack = %(opstack)d\n  MaxDictStack = %(dictstack)d\n"
             "  ImplLimitArr = %(maxarray)d\n  ImplLimitStr = %(maxstring)d\n  ImplLimitDict = %(maxdict)d\n" % v)
